@@ -229,13 +229,14 @@ Record sys := mksys {
   ctxs : list ctx;            (* by id = allocation order *)
   sent : nat -> list Z;       (* per connection: bytes the peer has sent *)
   pclosed : nat -> bool;      (* per connection: the peer closed *)
+  preset : nat -> bool;       (* per connection: the peer reset it *)
   queue : list nat;           (* handle->ctx_queue *)
   reg : list nat;             (* evloop->ctx_list *)
   clr : list nat;             (* nodes of ctx_list on_clear has still to visit *)
   pc : spc;
 }.
 
-Definition init : sys := mksys [] (fun _ => []) (fun _ => false) [] [] [] PIdle.
+Definition init : sys := mksys [] (fun _ => []) (fun _ => false) (fun _ => false) [] [] [] PIdle.
 
 Fixpoint put (l : list ctx) (c : nat) (x : ctx) : list ctx :=
   match l, c with
@@ -245,13 +246,13 @@ Fixpoint put (l : list ctx) (c : nat) (x : ctx) : list ctx :=
   end.
 
 Definition with_ctx (s : sys) (c : nat) (x : ctx) : sys :=
-  mksys (put (ctxs s) c x) (sent s) (pclosed s) (queue s) (reg s) (clr s) (pc s).
+  mksys (put (ctxs s) c x) (sent s) (pclosed s) (preset s) (queue s) (reg s) (clr s) (pc s).
 Definition with_pc (s : sys) (p : spc) : sys :=
-  mksys (ctxs s) (sent s) (pclosed s) (queue s) (reg s) (clr s) p.
+  mksys (ctxs s) (sent s) (pclosed s) (preset s) (queue s) (reg s) (clr s) p.
 Definition with_lists (s : sys) (q r cl : list nat) : sys :=
-  mksys (ctxs s) (sent s) (pclosed s) q r cl (pc s).
+  mksys (ctxs s) (sent s) (pclosed s) (preset s) q r cl (pc s).
 Definition add_ctx (s : sys) (x : ctx) : sys :=
-  mksys (ctxs s ++ [x]) (sent s) (pclosed s) (queue s) (reg s) (clr s) (pc s).
+  mksys (ctxs s ++ [x]) (sent s) (pclosed s) (preset s) (queue s) (reg s) (clr s) (pc s).
 
 Fixpoint remove_nat (c : nat) (l : list nat) : list nat :=
   match l with
@@ -315,6 +316,7 @@ Inductive ev :=
   | EHand (c : nat)                     (* muggle_socket_evloop_add_ctx *)
   | ESend (n : nat) (bs : list Z)       (* the peer of connection n sends *)
   | EPclose (n : nat)                   (* the peer closes *)
+  | EPreset (n : nat)                   (* the peer resets the connection (unread bytes may be dropped by the kernel) *)
   | EWshut (c : nat) | EWrel (c : nat) | EWrelease (c : nat) | EWfree (c : nat)
   (* loop thread *)
   | EReg (c : nat) (ok : bool)          (* muggle_evloop_add_ctx returned *)
@@ -353,6 +355,16 @@ Definition wake_locked (p : spc) : bool :=
 (* user callbacks run from the dispatch loop or, for cb_add_ctx, from inside on_wake *)
 Definition in_callback (p : spc) : bool := match p with PIdle | PWake => true | _ => false end.
 
+(* The three back-ends agree on this: when a readiness report for a context says "readable"
+   (select: FD_ISSET; poll: POLLIN; epoll: EPOLLIN) cb_read runs first, and the CLOSED flag is
+   tested afterwards (poll: POLLHUP|POLLERR after the POLLIN branch; epoll: ERR|HUP only in the
+   else branch).  A hang-up therefore closes a context whose flag nobody has set only when the
+   report carries no "readable", i.e. when every byte the peer sent has been read already -- or
+   when the connection was reset (the kernel may then drop what was queued). *)
+Definition hup_only (s : sys) (x : ctx) : bool :=
+  (preset s (k_conn x) ||
+   (pclosed s (k_conn x) && Nat.eqb (length (k_got x)) (length (sent s (k_conn x)))))%bool.
+
 Definition step (s : sys) (e : ev) : option (sys * Z) :=
   match e with
   | EHalloc kd n => Some (add_ctx s (new_ctx kd n LUser true), 0)
@@ -365,9 +377,11 @@ Definition step (s : sys) (e : ev) : option (sys * Z) :=
     else None
   | ESend n bs =>
     if pclosed s n then None
-    else Some (mksys (ctxs s) (upd (sent s) n (sent s n ++ bs)) (pclosed s) (queue s) (reg s) (clr s) (pc s), 0)
+    else Some (mksys (ctxs s) (upd (sent s) n (sent s n ++ bs)) (pclosed s) (preset s) (queue s) (reg s) (clr s) (pc s), 0)
   | EPclose n =>
-    Some (mksys (ctxs s) (sent s) (upd (pclosed s) n true) (queue s) (reg s) (clr s) (pc s), 0)
+    Some (mksys (ctxs s) (sent s) (upd (pclosed s) n true) (preset s) (queue s) (reg s) (clr s) (pc s), 0)
+  | EPreset n =>
+    Some (mksys (ctxs s) (sent s) (upd (pclosed s) n true) (upd (preset s) n true) (queue s) (reg s) (clr s) (pc s), 0)
   | EWshut c => ret0 (on_ctx s c l_wshut)
   | EWrel c => on_ctx_r s c l_wrel
   | EWrelease c => ret0 (on_ctx s c l_wrelease)
@@ -465,7 +479,7 @@ Definition step (s : sys) (e : ev) : option (sys * Z) :=
     if spc_eqb (pc s) PIdle then
       match nth_error (ctxs s) c with
       | Some x =>
-        ret0 (match on_ctx s c (fun x => l_close x (pclosed s (k_conn x))) with
+        ret0 (match on_ctx s c (fun x => l_close x (hup_only s x)) with
               | Some s1 => Some (with_pc (with_lists s1 (queue s1) (remove_nat c (reg s1)) (clr s1)) (PRel c KIdle))
               | None => None end)
       | None => None
